@@ -28,7 +28,7 @@ Q(n) == [k |-> "q", n |-> n, args |-> <<>>]
 Str(t) == [k |-> "str", n |-> t, args |-> <<>>]
 Call(f, args) == [k |-> "call", n |-> f, args |-> args]
 
-WordChars == {"a", "b", "c", "e", "x", "p", "f", "g", "_", "1", "o", "r", "m", "u", "l", "i"}
+WordChars == {"a", "b", "c", "e", "x", "p", "f", "g", "_", "1", "o", "r", "m", "u", "l", "i"}      \* "+", "-", " " are not
 Digits == {"1"}
 IsWord(c) == c \in WordChars
 IsIdent(n) == n # <<>> /\ (\A i \in DOMAIN n : IsWord(n[i])) /\ n[1] \notin Digits
